@@ -38,7 +38,7 @@ var Kinds = []Kind{Bridge, L1Info, GER}
 var BlockKinds = map[Kind][]string{
 	Bridge: {"empty", "bridge", "bridge2", "claim", "tokenmap", "migrate", "rmlegacy", "bridge+claim", "same"},
 	L1Info: {"empty", "info", "info2", "verify", "v2", "init", "verify+info"},
-	GER:    {"empty", "insert", "remove", "insertinfo"},
+	GER:    {"empty", "insert", "remove", "insertinfo", "again"},
 }
 
 // Writer is the write side of a store.
@@ -411,6 +411,13 @@ func (c *Chain) NextAt(num uint64, kind string, salt int) aggsync.Block {
 		case "insertinfo":
 			evs = append(evs, &lastgersync.Event{GERInfo: &lastgersync.GlobalExitRootInfo{
 				GlobalExitRoot: h("ger", ins, uint64(salt)), L1InfoTreeIndex: uint32(ins) + 1}})
+		case "again":
+			// the most recently injected root of the current chain is injected once more (same root, same index: the
+			// index is a function of the root); nothing if no root has been injected yet
+			if ev := c.lastInsertedGER(); ev != nil {
+				evs = append(evs, &lastgersync.Event{GEREvent: &lastgersync.GEREvent{BlockNum: num,
+					GlobalExitRoot: ev.GlobalExitRoot, L1InfoTreeIndex: ev.L1InfoTreeIndex}})
+			}
 		case "remove":
 			// removes the earliest inserted root of the current chain that has not been removed yet
 			if g, ok := c.nthInsertedGER(c.countKind("remove")); ok {
@@ -435,8 +442,26 @@ func (c *Chain) countKind(kind string) int {
 	return n
 }
 
+func (c *Chain) lastInsertedGER() *lastgersync.GEREvent {
+	var last *lastgersync.GEREvent
+	for _, b := range c.Blocks {
+		for _, e := range b.Block.Events {
+			ev := e.(*lastgersync.Event)
+			switch {
+			case ev.GEREvent != nil && !ev.GEREvent.IsRemove:
+				last = ev.GEREvent
+			case ev.GERInfo != nil:
+				last = &lastgersync.GEREvent{GlobalExitRoot: ev.GERInfo.GlobalExitRoot, L1InfoTreeIndex: ev.GERInfo.L1InfoTreeIndex}
+			}
+		}
+	}
+	return last
+}
+
+// nthInsertedGER: the n-th distinct root injected on the current chain.
 func (c *Chain) nthInsertedGER(n int) (common.Hash, bool) {
 	i := 0
+	seen := map[common.Hash]bool{}
 	for _, b := range c.Blocks {
 		for _, e := range b.Block.Events {
 			ev := e.(*lastgersync.Event)
@@ -449,6 +474,10 @@ func (c *Chain) nthInsertedGER(n int) (common.Hash, bool) {
 			default:
 				continue
 			}
+			if seen[g] {
+				continue
+			}
+			seen[g] = true
 			if i == n {
 				return g, true
 			}
@@ -480,20 +509,22 @@ func (c *Chain) RemovalInDroppedTargetsKept(from uint64) bool {
 			}
 		}
 	case GER:
-		created := map[common.Hash]uint64{}
+		// live rows of a root: the blocks that injected it since its last removal (a removal deletes all of them)
+		live := map[common.Hash][]uint64{}
 		for _, b := range c.Blocks {
 			for _, e := range b.Block.Events {
 				ev := e.(*lastgersync.Event)
 				if ev.GERInfo != nil {
-					created[ev.GERInfo.GlobalExitRoot] = b.Num
+					live[ev.GERInfo.GlobalExitRoot] = append(live[ev.GERInfo.GlobalExitRoot], b.Num)
 				}
 				if ev.GEREvent != nil && !ev.GEREvent.IsRemove {
-					created[ev.GEREvent.GlobalExitRoot] = b.Num
+					live[ev.GEREvent.GlobalExitRoot] = append(live[ev.GEREvent.GlobalExitRoot], b.Num)
 				}
-				if ev.GEREvent != nil && ev.GEREvent.IsRemove && b.Num >= from {
-					if at, ok := created[ev.GEREvent.GlobalExitRoot]; ok && at < from {
+				if ev.GEREvent != nil && ev.GEREvent.IsRemove {
+					if rows := live[ev.GEREvent.GlobalExitRoot]; b.Num >= from && len(rows) > 0 && rows[0] < from {
 						return true
 					}
+					delete(live, ev.GEREvent.GlobalExitRoot)
 				}
 			}
 		}
